@@ -161,6 +161,9 @@ func (e *Engine) addContractFile(cf *ContractFile) {
 			e.ghostFields[gf.PkgPath+"."+owner] = append(e.ghostFields[gf.PkgPath+"."+owner], gf)
 		}
 	}
+	for _, a := range cf.Aliases {
+		e.ghostFields[a[2]+"."+a[0]] = e.ghostFields[a[2]+"."+a[1]]
+	}
 }
 
 func (e *Engine) discoverUnits(p *packages.Package, external bool) {
@@ -368,6 +371,10 @@ func (vc *VC) declParam(st *State, p *types.Var) {
 	}
 	t := vc.fresh(name, s)
 	vc.typeInvariant(st, t)
+	if s.Kind == KRef {
+		// a pointer the caller holds refers to an object allocated before the call
+		vc.facts = append(vc.facts, "(<= "+t.S+" "+vc.allocCounter(st)+")")
+	}
 	if vc.cellVars[p] {
 		ref := vc.newRef(st)
 		vc.storeRef(st, ref, s, t.S)
